@@ -94,7 +94,7 @@ def field (ws : List String) (k : String) : Option String :=
 def handle : List String → Option String
   | ["equal", a, b] => do
     some (toString (GoSup.Equal.configEqual (← parseConfig a) (← parseConfig b)))
-  | ["c13holds", a, b, r] => do
+  | ["c13equalholds", a, b, r] => do
     some (toString (GoSup.Spec.C13.holdsEqual (← parseConfig a) (← parseConfig b) (r == "true")))
   | ["member", a, b] => do
     let old ← (listOf a ",").mapM strOfHex
